@@ -23,29 +23,42 @@ pub fn ticket_now() -> u64 {
     TICKET.load(Ordering::SeqCst)
 }
 
+/// Progress counter watched by the progress watchdog. Only *meaningful* events bump it (an entry
+/// handed to a stream, an append/operation returning, a future completing): periodic wake-ups of
+/// an idle writer thread and its periodic flushes deliberately do not count, otherwise a stuck
+/// obligation on an idle queue would never be noticed.
+static PROGRESS: AtomicU64 = AtomicU64::new(0);
+
+#[inline]
+pub fn progress_tick() {
+    PROGRESS.fetch_add(1, Ordering::SeqCst);
+}
+
+#[inline]
+pub fn progress_now() -> u64 {
+    PROGRESS.load(Ordering::SeqCst)
+}
+
 pub fn is_miri() -> bool {
     cfg!(miri)
 }
 
 pub fn pause() {
-    if is_miri() {
-        std::thread::yield_now();
-    } else {
-        std::thread::sleep(Duration::from_micros(100));
-    }
+    // (under Miri a sleep blocks the thread on the real clock instead of burning interpreter steps)
+    std::thread::sleep(Duration::from_micros(if is_miri() { 500 } else { 100 }));
 }
 
-/// Wait until `cond()`; gives up (returns false) only if the global ticket counter has not moved
+/// Wait until `cond()`; gives up (returns false) only if the global progress counter has not moved
 /// for `stall` while waiting ("progress watchdog"): a merely slow machine keeps the counter moving.
 pub fn progress_wait(mut cond: impl FnMut() -> bool, stall: Duration) -> bool {
-    let mut last = ticket_now();
+    let mut last = progress_now();
     let mut last_change = Instant::now();
     let mut spins = 0u32;
     loop {
         if cond() {
             return true;
         }
-        let now = ticket_now();
+        let now = progress_now();
         if now != last {
             last = now;
             last_change = Instant::now();
@@ -107,6 +120,7 @@ pub fn poll_once<F: Future + ?Sized>(fut: Pin<&mut F>) -> Poll<F::Output> {
 const MAX_POINTS: usize = 32;
 static POINT_NAMES: Mutex<Vec<&'static str>> = Mutex::new(Vec::new());
 static POINT_HITS: [AtomicU64; MAX_POINTS] = [const { AtomicU64::new(0) }; MAX_POINTS];
+static POINT_LAST: [AtomicU64; MAX_POINTS] = [const { AtomicU64::new(0) }; MAX_POINTS];
 static PERTURB_SEED: AtomicU64 = AtomicU64::new(0);
 /// 0 = record only; otherwise roughly "per-mille of hits that get perturbed"
 static PERTURB_INTENSITY: AtomicU64 = AtomicU64::new(0);
@@ -143,7 +157,8 @@ fn point_index(id: &'static str) -> usize {
 fn hook(id: &'static str) {
     let idx = point_index(id);
     POINT_HITS[idx].fetch_add(1, Ordering::Relaxed);
-    ticket(); // hook points count as progress for the watchdog
+    // remember when each point was last reached (hook points do NOT count as watchdog progress)
+    POINT_LAST[idx].store(ticket(), Ordering::SeqCst);
     let intensity = PERTURB_INTENSITY.load(Ordering::Relaxed);
     let seed = PERTURB_SEED.load(Ordering::Relaxed);
     let Ok((thread_idx, action)) = TL_RNG.try_with(|r| {
@@ -214,6 +229,15 @@ pub fn trace_enable(on: bool) {
 /// returns the rolling hash of (point, thread) events since the last call, and resets it
 pub fn trace_take() -> u64 {
     TRACE_HASH.swap(0xcbf2_9ce4_8422_2325, Ordering::SeqCst)
+}
+
+/// ticket at which the named hook point was last reached (0 = never)
+pub fn hook_last_ticket(name: &str) -> u64 {
+    let g = POINT_NAMES.lock().unwrap();
+    match g.iter().position(|s| *s == name) {
+        Some(i) => POINT_LAST[i.min(MAX_POINTS - 1)].load(Ordering::SeqCst),
+        None => 0,
+    }
 }
 
 /// (point name, hits) for every hook point reached so far
